@@ -395,7 +395,10 @@ def mon_c04(k, domain, check_ip, offered, up_frames, wildcard=False, srv="srv", 
     delivered_ids = set()
 
     def sec(t_us):
-        return (k.epoch_us + t_us) // 1000000
+        # seconds of the clock as it would read had it never been set back (steps are whole seconds, so it ticks when the
+        # server's does): a gap measured with it is never shorter than the gap the server computes
+        return (getattr(k, "epoch0_us", k.epoch_us) + t_us) // 1000000
+    back = getattr(k, "stepped_back_s", 0)      # (the server may take a session for alive that much longer)
 
     def bad(key, what, ev, **kw):
         w = {"time_us": ev[0]}
@@ -568,7 +571,7 @@ def mon_c04(k, domain, check_ip, offered, up_frames, wildcard=False, srv="srv", 
             continue
         what = "login" if c == b"l" else ("ping/data" if is_pd else c.decode().upper() + " request")
         if served:
-            if silent is not None and silent >= 62:
+            if silent is not None and silent >= 62 + back:
                 bad("C04:expired-session-served", "%s naming slot %d was served %d s after the slot's last (possibly) accepted message"
                     % (what, uid, silent), ev, slot=uid)
             elif check_ip and not q_permitted:
@@ -579,7 +582,7 @@ def mon_c04(k, domain, check_ip, offered, up_frames, wildcard=False, srv="srv", 
             if c == b"l" or is_pd:
                 s["last_ok_s"] = max(s["last_ok_s"], q_s)      # these refresh the session's liveness
         elif p == b"BADIP":
-            if silent is not None and silent >= 61:
+            if silent is not None and silent >= 61 + back:
                 st["c04_expired_requests_refused"] += 1
                 kinds.add(("expired-refused", "l" if c == b"l" else "pd" if is_pd else c.decode()))
             elif check_ip and not q_permitted:
